@@ -98,6 +98,17 @@ def gen_part(name, part, P, ver, lemmas=True, append=False):
             pre, st, full, pre, "\n".join(lines)))
     if not lemmas:
         return out
+    # ---- dec_fields: the decoder, field by field (so users need not reveal the whole opaque body)
+    ens = []
+    for fname, off, w, ty in P["fields"]:
+        if ty == "const":
+            ens.append("%s_dec(b, o).%s == %d" % (pre, fname, ver))
+        elif ty.startswith("derived:"):
+            ens.append("%s_dec(b, o).%s == %s(b[o + %d])" % (pre, fname, ty.split(":")[1], off - shift))
+        else:
+            ens.append("%s_dec(b, o).%s == %s" % (pre, fname, _rd(ty, off - shift)))
+    out.append("pub proof fn lemma_%s_dec_fields(b: Seq<u8>, o: int)\n    ensures\n        %s,\n{\n    reveal(%s_dec);\n}" % (
+        pre, ",\n        ".join(ens), pre))
     # ---- enc_len
     out.append("pub proof fn lemma_%s_enc_len(h: %s)\n    ensures %s_enc(h).len() == %d,\n{\n    broadcast use axiom_ipv4_inj;\n%s\n    assert(%s_enc(h) == hs%d);\n}" % (
         pre, st, pre, size, "\n".join(sums("h")), pre, n - 1))
